@@ -80,17 +80,31 @@ def gen_ti_case(rng, tier):
 
 def gen_im_case(rng, tier):
     imgs = [gen_im.gen_image(rng, i) for i in range(rng.randint(1, 3))]
+    if len(imgs) > 1 and rng.random() < 0.5:
+        # the same payload under two names: different images, equal checksums
+        for img in imgs[1:]:
+            img["checksums"] = dict(imgs[0]["checksums"])
     ops = [{"op": "im_init", "compose": pools.compose(rng), "version": "1.2"}]
     for i, img in enumerate(imgs):
         ops.append({"op": "img_new", "iid": i, "attrs": img})
         ops.append({"op": "img_add", "variant": "Server", "arch": "x86_64", "iid": i})
     vals = ["aa11", "bb22", "", None, "cc33"]
-    for _ in range(rng.randint(3, 12)):
+    path = "/sim/d/images.json"
+    n = rng.randint(3, 12)
+    restart_at = rng.randrange(n) if rng.random() < 0.5 else None
+    for k in range(n):
+        if k == restart_at:
+            # the images the calls go on with were read from the stored manifest
+            ops.append({"op": "dump", "path": path})
+            ops.append({"op": "restart", "path": path, "via": pick(rng, ["path", "handle", "loads"]), "offset": rng.randint(0, 300)})
         i = rng.randrange(len(imgs))
         t = pick(rng, ["md5", "sha1", "sha256", "sha512"])
         v = pick(rng, vals + list(imgs[i]["checksums"].values()))
         ops.append({"op": "img_add_checksum", "iid": i, "ctype": t, "value": v})
     ops.append({"op": "dumps"})
+    if rng.random() < 0.5:
+        ops.append({"op": "dump", "path": path})
+        ops.append({"op": "restart", "path": path, "via": "path"})
     return {"machine": "M-IM", "cfg": {}, "ops": ops}
 
 
